@@ -86,11 +86,12 @@ func RunSchedule(w *World, s *Schedule) {
 		w.Emit("fault", Ev{"what": "start: " + r, "in": "harness"})
 		return
 	}
+	w.Node.recovered = true // a fresh database: nothing to recover
 	w.Quiesce()
 	for i := range s.Steps {
 		w.RunStep(i, &s.Steps[i])
 		if w.Cfg.Retransmit {
-			time.Sleep(12 * time.Millisecond) // several retransmission intervals pass between two environment steps
+			time.Sleep(80 * time.Millisecond) // several retransmission intervals (25 ms) pass between two environment steps
 		}
 	}
 	if w.Cfg.Retransmit {
@@ -253,6 +254,23 @@ func (w *World) RunStep(i int, st *Step) {
 		w.StopNode()
 		if r := w.StartNode(true); r != "" {
 			res = "err:" + r
+		}
+	case "start": // process start up to Start(): handlers are registered, swaps not yet recovered
+		w.Emit("drive", d)
+		w.StopNode()
+		if r := w.StartNode(false); r != "" {
+			res = "err:" + r
+		}
+	case "recover": // SafeUpgrade + RecoverSwaps of a started node
+		w.Emit("drive", d)
+		if up && w.Node.recovered {
+			res = "noop"
+		} else if up {
+			if r := w.RecoverNode(); r != "" {
+				res = "err:" + r
+			}
+		} else {
+			res = "down"
 		}
 	case "stop":
 		w.Emit("drive", d)
